@@ -6,7 +6,7 @@ use kurbo::verif::{verif_approx_parabola_integral, verif_approx_parabola_inv_int
 use kurbo::{flatten, BezPath, CubicBez, ParamCurve, ParamCurveDeriv, PathEl, PathSeg, Point, QuadBez};
 
 pub fn prop() -> Prop {
-    Prop { id: "C05", corr, laws, extra, law_budget: (60, 1500) }
+    Prop { id: "C05", corr, laws, extra, law_budget: (300, 3000) }
 }
 
 // ------------------------------------------------------------------ generators
@@ -97,10 +97,41 @@ fn gen_path(r: &mut Rng) -> Vec<PathEl> {
     v
 }
 
+/// More output elements than any input of the generators can legitimately produce (they keep
+/// extent / tolerance <= 4e4, i.e. a few hundred vertices per curve): flattening is aborted there so
+/// that a defect which blows the subdivision count up cannot stall the check.
+const OUT_CAP: usize = 200_000;
+thread_local! { static OVERFLOW: std::cell::Cell<bool> = std::cell::Cell::new(false); }
+// (samples, largest curve->polyline distance / tol, largest polyline->curve distance / tol) seen by the law `hausdorff`
+thread_local! { static HD_STATS: std::cell::Cell<(u64, f64, f64)> = std::cell::Cell::new((0, 0.0, 0.0)); }
+
 fn run_flatten(els: &[PathEl], tol: f64) -> Vec<PathEl> {
     let mut out = Vec::new();
-    flatten(els.iter().cloned(), tol, |e| out.push(e));
+    let r = std::panic::catch_unwind(std::panic::AssertUnwindSafe(|| {
+        flatten(els.iter().cloned(), tol, |e| {
+            if out.len() >= OUT_CAP {
+                panic!("output cap");
+            }
+            out.push(e)
+        })
+    }));
+    if r.is_err() {
+        OVERFLOW.with(|o| o.set(true));
+    }
     out
+}
+
+/// did any `run_flatten` since the last call hit the cap?
+fn take_overflow() -> bool {
+    OVERFLOW.with(|o| o.replace(false))
+}
+
+fn overflow_violation(what: &str) -> Option<(String, String)> {
+    if take_overflow() {
+        Some(("vertex-count:explosion".to_string(), format!("flatten emitted more than {} elements for {}", OUT_CAP, what)))
+    } else {
+        None
+    }
 }
 
 // ------------------------------------------------------------------ libm tables for the correspondence
@@ -267,7 +298,7 @@ fn corr(r: &mut Rng, thorough: bool, o: &mut Out) {
         let els = gen_path(r);
         let tol = gen_tol_for(r, els_extent(&els));
         let out = run_flatten(&els, tol);
-        if out.len() > 300 {
+        if take_overflow() || out.len() > 300 {
             continue;
         }
         let (th, tp) = path_tables(&els, tol);
@@ -307,7 +338,7 @@ fn corr(r: &mut Rng, thorough: bool, o: &mut Out) {
         }
         let tol = gen_tol_for(r, els_extent(&els)) * (1.0 + r.unit() * 0.01);
         let out = run_flatten(&els, tol);
-        if out.len() > 200 {
+        if take_overflow() || out.len() > 200 {
             continue;
         }
         let mut a = vec![tol];
@@ -476,6 +507,13 @@ impl Crv {
     fn mag(&self) -> f64 {
         self.pts().iter().fold(0f64, |m, p| m.max(p.x.abs()).max(p.y.abs()))
     }
+    /// an upper bound of |c''(t)| on [0,1]
+    fn dd2(&self) -> f64 {
+        match self {
+            Crv::Q(q) => 2.0 * ((q.p2 - q.p1) - (q.p1 - q.p0)).hypot(),
+            Crv::C(c) => 6.0 * ((c.p2 - c.p1) - (c.p1 - c.p0)).hypot().max(((c.p3 - c.p2) - (c.p2 - c.p1)).hypot()),
+        }
+    }
     fn speed(&self, t: f64) -> f64 {
         match self {
             Crv::Q(q) => q.deriv().eval(t).to_vec2().hypot(),
@@ -521,12 +559,35 @@ fn dist_seg(p: Point, a: Point, b: Point) -> f64 {
 
 const NS: usize = 1024;
 
-/// the earliest parameter `t >= from` with `|c(t) - v| <= bound`, if any (sampling + refinement)
-fn earliest_within(c: &Crv, v: Point, from: f64, bound: f64, sag: f64) -> Option<f64> {
-    let f = |t: f64| dist(c.eval(t), v) - bound;
+/// The earliest parameter `t >= from` with `|c(t) - v| <= bound` (up to 1e-13 in t and a
+/// rounding-size slack in the distance), if any. Branch and bound, left to right: an interval
+/// [a,b] is discarded when even the lower bound `dist(v, chord) - |c''|max (b-a)^2 / 8` of the
+/// distance exceeds `bound`; otherwise it is halved, left half first. Reliable also where the
+/// distance has several local minima inside one sampling interval (hairpins).
+fn earliest_within(c: &Crv, v: Point, from: f64, bound: f64, dd2: f64) -> Option<f64> {
     let from = from.max(0.0).min(1.0);
-    if f(from) <= 0.0 {
+    if dist(c.eval(from), v) <= bound {
         return Some(from);
+    }
+    fn rec(c: &Crv, v: Point, bound: f64, dd2: f64, a: f64, pa: Point, b: f64, pb: Point, depth: u32) -> Option<f64> {
+        let h = b - a;
+        let lower = dist_seg(v, pa, pb) - dd2 * h * h / 8.0;
+        if lower > bound {
+            return None;
+        }
+        if h <= 1e-13 || depth > 60 {
+            // the chord is the curve to rounding here
+            return Some(b);
+        }
+        let m = 0.5 * (a + b);
+        let pm = c.eval(m);
+        if let Some(t) = rec(c, v, bound, dd2, a, pa, m, pm, depth + 1) {
+            return Some(t);
+        }
+        if dist(pm, v) <= bound {
+            return Some(m);
+        }
+        rec(c, v, bound, dd2, m, pm, b, pb, depth + 1)
     }
     let k0 = (from * NS as f64).floor() as usize;
     let mut a = from;
@@ -537,48 +598,11 @@ fn earliest_within(c: &Crv, v: Point, from: f64, bound: f64, sag: f64) -> Option
             continue;
         }
         let pb = c.eval(b);
-        let fb = dist(pb, v) - bound;
-        let mut hit = None;
-        if fb <= 0.0 {
-            hit = Some(b);
-        } else if dist_seg(v, pa, pb) - sag <= bound {
-            // a local minimum may dip below the bound inside (a, b): golden-section search
-            let (mut lo, mut hi) = (a, b);
-            let g = 0.381966011250105;
-            let (mut x1, mut x2) = (lo + g * (hi - lo), hi - g * (hi - lo));
-            let (mut f1, mut f2) = (f(x1), f(x2));
-            for _ in 0..60 {
-                if f1 < f2 {
-                    hi = x2;
-                    x2 = x1;
-                    f2 = f1;
-                    x1 = lo + g * (hi - lo);
-                    f1 = f(x1);
-                } else {
-                    lo = x1;
-                    x1 = x2;
-                    f1 = f2;
-                    x2 = hi - g * (hi - lo);
-                    f2 = f(x2);
-                }
-            }
-            let (tm, fm) = if f1 < f2 { (x1, f1) } else { (x2, f2) };
-            if fm <= 0.0 {
-                hit = Some(tm);
-            }
+        if let Some(t) = rec(c, v, bound, dd2, a, pa, b, pb, 0) {
+            return Some(t);
         }
-        if let Some(h) = hit {
-            // entry point of the feasible region in (a, h]
-            let (mut lo, mut hi) = (a, h);
-            for _ in 0..60 {
-                let m = 0.5 * (lo + hi);
-                if f(m) <= 0.0 {
-                    hi = m;
-                } else {
-                    lo = m;
-                }
-            }
-            return Some(hi);
+        if dist(pb, v) <= bound {
+            return Some(b);
         }
         a = b;
         pa = pb;
@@ -625,8 +649,7 @@ fn law_vertices(a: &[f64]) -> Option<(String, String)> {
         Crv::Q(_) => round,
         Crv::C(_) => 0.1 * tol * (1.0 + 1e-6) + round,
     };
-    // sagitta of one sampling interval (|c''| <= 6 * extent)
-    let sag = 6.0 * ext / (8.0 * (NS * NS) as f64) + round;
+    let sag = c.dd2() * (1.0 + 1e-9);
     let mut t = 0.0;
     for (i, e) in out[1..].iter().enumerate() {
         let v = match pt_of(e) {
@@ -705,41 +728,60 @@ fn law_hausdorff(a: &[f64]) -> Option<(String, String)> {
     };
     let m = 40 * poly.len().max(50);
     let curve: Vec<Point> = (0..=m).map(|k| c.eval(k as f64 / m as f64)).collect();
-    let slack = 6.0 * c.extent() / (8.0 * (m * m) as f64) + 1e-9 * c.mag();
+    let slack = 3.0 * c.extent() / (m * m) as f64 + 1e-9 * c.mag();
     let limit = 4.0 * tol + slack;
-    // curve -> polyline
-    let mut worst = 0f64;
-    let mut j0 = 0usize;
-    for p in &curve {
-        // the nearest polyline edge moves forward along the curve: search a window around the last one
+    // distance from p to the polyline `pl`, searching edges near `hint` first (the nearest edge
+    // moves forward with the point); a full search only when the windowed minimum exceeds `limit` (a quarter of the law's limit)
+    // (the windowed minimum can only over-estimate the distance)
+    fn near_poly(p: Point, pl: &[Point], hint: usize, w: usize, limit: f64) -> (f64, usize) {
+        let lo = hint.saturating_sub(w);
+        let hi = (hint + w).min(pl.len() - 2);
         let mut best = f64::INFINITY;
-        let mut bj = j0;
-        for j in 0..poly.len() - 1 {
-            let d = dist_seg(*p, poly[j], poly[j + 1]);
+        let mut bj = hint;
+        for j in lo..=hi {
+            let d = dist_seg(p, pl[j], pl[j + 1]);
             if d < best {
                 best = d;
                 bj = j;
             }
         }
+        if best > limit {
+            for j in 0..pl.len() - 1 {
+                let d = dist_seg(p, pl[j], pl[j + 1]);
+                if d < best {
+                    best = d;
+                    bj = j;
+                }
+            }
+        }
+        (best, bj)
+    }
+    // curve -> polyline
+    let mut worst = 0f64;
+    let mut j0 = 0usize;
+    for p in &curve {
+        let (best, bj) = near_poly(*p, &poly, j0, 6, 0.25 * limit);
         j0 = bj;
         worst = worst.max(best);
     }
     if worst > limit {
         return fail(&format!("hausdorff:curve-to-polyline:{}", kind), format!("{:?} tol={}: a curve point is {:e} = {:.3} x tol from the polyline ({} vertices)", c.pts(), tol, worst, worst / tol, poly.len()));
     }
-    let _ = j0;
     // polyline -> curve
     let mut worst2 = 0f64;
+    let mut c0 = 0usize;
     for j in 0..poly.len() - 1 {
         for s in 0..4 {
             let p = poly[j] + (poly[j + 1] - poly[j]) * (s as f64 / 4.0);
-            let mut best = f64::INFINITY;
-            for w in curve.windows(2) {
-                best = best.min(dist_seg(p, w[0], w[1]));
-            }
+            let (best, bc) = near_poly(p, &curve, c0, 120, 0.25 * limit);
+            c0 = bc;
             worst2 = worst2.max(best);
         }
     }
+    HD_STATS.with(|h| {
+        let (n, a, b) = h.get();
+        h.set((n + 1, a.max(worst / tol), b.max(worst2 / tol)))
+    });
     if worst2 > limit {
         return fail(&format!("hausdorff:polyline-to-curve:{}", kind), format!("{:?} tol={}: a polyline point is {:e} = {:.3} x tol from the curve", c.pts(), tol, worst2, worst2 / tol));
     }
@@ -776,6 +818,62 @@ fn dedup(v: &[Point], eps: f64) -> Vec<Point> {
     o
 }
 
+/// Ill-conditioned inputs (control points collinear to rounding, pieces at an inflection): the
+/// output is decided by rounding noise and no scaling law can hold on floats for generic k. Use only
+/// inputs whose own output is stable under scalings by 1 +- 1e-12 and under perturbations of each
+/// coordinate by 1e-13 x size, and whose quadratics are clearly non-collinear.
+fn well_conditioned(c: &Crv, tol: f64, base: &[Point]) -> bool {
+    let c = *c;
+        // conditioning: every quadratic that estimate_subdiv sees must be clearly non-collinear
+        let well = |q: &QuadBez| {
+            let d01 = q.p1 - q.p0;
+            let d12 = q.p2 - q.p1;
+            let cross = (q.p2 - q.p0).cross(d01 - d12);
+            let e = Crv::Q(*q).extent();
+            cross.abs() >= 1e-6 * e * e
+        };
+        let ok = match c {
+            Crv::Q(q) => well(&q),
+            Crv::C(cu) => cu.to_quads(tol * 0.1).take(2000).all(|(_, _, q)| well(&q)),
+        };
+        if !ok {
+            return false;
+        }
+        let m = c.mag().max(1e-300);
+        let b0 = dedup(&base, 1e-7 * m);
+        let same = |other: &[Point], kk: f64| {
+            let o = dedup(other, 1e-7 * m * kk);
+            o.len() == b0.len() && o.iter().zip(&b0).all(|(p, q)| dist(*p, Point::new(q.x * kk, q.y * kk)) <= 1e-8 * m * kk)
+        };
+        for kk in [1.0 + 1e-12, 1.0 - 1e-12] {
+            let o: Vec<Point> = run_flatten(&c.scaled(kk).els(), tol * kk).iter().filter_map(pt_of).collect();
+            if !same(&o, kk) {
+                return false;
+            }
+        }
+        let pts = c.pts();
+        for i in 0..2 * pts.len() {
+            for sgn in [-1.0, 1.0] {
+                let mut q = pts.clone();
+                let d = sgn * 1e-13 * m;
+                if i % 2 == 0 {
+                    q[i / 2].x += d
+                } else {
+                    q[i / 2].y += d
+                }
+                let cp = match c {
+                    Crv::Q(_) => Crv::Q(QuadBez::new(q[0], q[1], q[2])),
+                    Crv::C(_) => Crv::C(CubicBez::new(q[0], q[1], q[2], q[3])),
+                };
+                let o: Vec<Point> = run_flatten(&cp.els(), tol).iter().filter_map(pt_of).collect();
+                if !same(&o, 1.0) {
+                    return false;
+                }
+            }
+        }
+    true
+}
+
 /// scaling path and tolerance together scales the output: bit-exact for k a power of four
 /// (every operation of flatten then commutes with the scaling), to rounding for generic k
 fn law_scale(a: &[f64]) -> Option<(String, String)> {
@@ -800,6 +898,9 @@ fn law_scale(a: &[f64]) -> Option<(String, String)> {
     // generic k: the count may differ by a vertex that (nearly) coincides with its successor
     let eps = 1e-7 * c.mag().max(1e-300) * k;
     let (w, s) = (dedup(&want, eps), dedup(&scaled, eps));
+    if !well_conditioned(&c, tol, &base) {
+        return None;
+    }
     if w.len() != s.len() {
         // a count sitting on a rounding boundary: only accept if the unscaled count is within rounding of the boundary
         return fail(&format!("scale:count:{}", kind), format!("{:?} tol={} k={}: {} vs {} vertices", c.pts(), tol, k, w.len(), s.len()));
@@ -812,16 +913,55 @@ fn law_scale(a: &[f64]) -> Option<(String, String)> {
     None
 }
 
+fn capped(f: fn(&[f64]) -> Option<(String, String)>, a: &[f64]) -> Option<(String, String)> {
+    take_overflow();
+    let r = f(a);
+    match overflow_violation(&format!("law arguments {:?}", a)) {
+        Some(v) => Some(v),
+        None => r,
+    }
+}
+fn law_runs_c(a: &[f64]) -> Option<(String, String)> {
+    capped(law_runs, a)
+}
+fn law_vertices_c(a: &[f64]) -> Option<(String, String)> {
+    capped(law_vertices, a)
+}
+fn law_hausdorff_c(a: &[f64]) -> Option<(String, String)> {
+    capped(law_hausdorff, a)
+}
+fn law_scale_c(a: &[f64]) -> Option<(String, String)> {
+    capped(law_scale, a)
+}
+
 fn laws() -> Vec<Law> {
     vec![
-        Law { name: "runs", gen: g_path, check: law_runs, weight: 6 },
-        Law { name: "vertices", gen: g_curve_tol, check: law_vertices, weight: 4 },
-        Law { name: "hausdorff", gen: g_hausdorff, check: law_hausdorff, weight: 2 },
-        Law { name: "scale", gen: g_scale, check: law_scale, weight: 3 },
+        Law { name: "runs", gen: g_path, check: law_runs_c, weight: 6 },
+        Law { name: "vertices", gen: g_curve_tol, check: law_vertices_c, weight: 4 },
+        Law { name: "hausdorff", gen: g_hausdorff, check: law_hausdorff_c, weight: 2 },
+        Law { name: "scale", gen: g_scale, check: law_scale_c, weight: 3 },
     ]
 }
 
-fn extra(_r: &mut Rng, _thorough: bool, o: &mut Out) {
+fn extra(r: &mut Rng, _thorough: bool, o: &mut Out) {
+    // census: how many generic-k samples of the scale law are well-conditioned (reach the comparison)
+    let (mut tot, mut ok) = (0, 0);
+    for _ in 0..400 {
+        let a = g_scale(r);
+        let (c, rest) = dec_crv(&a);
+        if is_pow4(rest[1]) {
+            continue;
+        }
+        tot += 1;
+        let base: Vec<Point> = run_flatten(&c.els(), rest[0]).iter().filter_map(pt_of).collect();
+        if base.len() <= 3000 && well_conditioned(&c, rest[0], &base) {
+            ok += 1;
+        }
+    }
+    take_overflow();
+    let (n, a, b) = HD_STATS.with(|h| h.get());
+    o.notes.push(format!("hausdorff law: over {} curves of the stated sub-domain the largest distance curve->polyline was {:.3} x tolerance, polyline->curve {:.3} x tolerance (limit 4)", n, a, b));
+    o.notes.push(format!("scale law, generic k: {} of {} sampled inputs are well-conditioned and compared (the others are skipped)", ok, tot));
     // DESIGN section 5 finding 11: M0,0 L10,0 Z Q5,5 10,10 L0,10
     let p = |x: f64, y: f64| Point::new(x, y);
     for els in [
@@ -831,7 +971,7 @@ fn extra(_r: &mut Rng, _thorough: bool, o: &mut Out) {
         let mut a = vec![0.1];
         a.extend(enc_els(&els));
         o.oracle_eval("runs");
-        if let Some((class, desc)) = law_runs(&a) {
+        if let Some((class, desc)) = law_runs_c(&a) {
             o.violation(&class, desc, format!("{{\"law\":{},\"args\":{}}}", json_str("runs"), fmt_fs(&a)));
         }
     }
